@@ -114,8 +114,11 @@ type sinfo struct {
 	must     int32 // the harness knows: closed at the next quiescent point
 	probed   bool
 
-	m   int    // reference model: state
-	mid string // reference model: id
+	m    int    // reference model: state
+	mid  string // reference model: id
+	lost bool   // reference model: closed because a newer session took its id over
+
+	discRename atomic.Value // string: the PostDisconnect hook renames the (ended) session to this id
 }
 
 func (si *sinfo) name() string { return fmt.Sprintf("%s%d", sideName[si.side], si.n) }
@@ -292,6 +295,11 @@ func (r *recorder) PostDial(s erpc.PreSession, isRedial bool) *erpc.Status {
 func (r *recorder) PostDisconnect(s erpc.BaseSession) *erpc.Status {
 	if si := lookup(s); si != nil {
 		atomic.AddInt32(&si.disc, 1)
+		if id, _ := si.discRename.Load().(string); id != "" {
+			// a disconnect hook that renames the session it is told about (e.g. to park it under a tombstone id)
+			si.sess.SetID(id)
+			core.Add("renames_in_disconnect_hook", 1)
+		}
 	}
 	return nil
 }
@@ -976,10 +984,31 @@ func (w *world) mTakeover(side int, id string, except *sinfo) bool {
 	for _, si := range w.sessions() {
 		if si != except && si.side == side && si.m == mOK && si.mid == id {
 			w.mClose(si, fmt.Sprintf("its id %q was taken over by the newer session %s", id, except.name()))
+			si.lost = true
 			took = true
 		}
 	}
 	return took
+}
+
+// losers returns the closed takeover losers on a peer whose old id (the one they are still known under) is now
+// held by a live session - renaming such a session must not touch the winner's index entry. Newest first.
+func (w *world) losers(side int) []*sinfo {
+	var out []*sinfo
+	all := w.sessions()
+	for i := len(all) - 1; i >= 0; i-- {
+		si := all[i]
+		if si.side != side || si.m != mClosed || !si.lost {
+			continue
+		}
+		for _, o := range all {
+			if o.side == side && o.m == mOK && o.mid == si.mid {
+				out = append(out, si)
+				break
+			}
+		}
+	}
+	return out
 }
 
 func (w *world) liveOn(side int, except *sinfo) []*sinfo {
@@ -1165,7 +1194,7 @@ func (w *world) exec(o op) (out stepOut) {
 				p.m = mNone
 			}
 		}
-	case "setid-fresh", "setid-collide", "setid-same":
+	case "setid-fresh", "setid-collide", "setid-same", "setid-loser":
 		l := w.pickLink(o)
 		if l == nil {
 			out.skipped = true
@@ -1174,6 +1203,14 @@ func (w *world) exec(o op) (out stepOut) {
 		x := l.b
 		if o.Side%2 == 1 {
 			x = l.a
+		}
+		onLoser := false
+		if ls := w.losers(x.side); len(ls) > 0 && (o.K == "setid-loser" || (o.V>>6)%4 == 0) {
+			// rename the loser of a takeover whose old id now belongs to the live winner
+			x, onLoser = ls[(o.V>>8)%len(ls)], true
+		} else if o.K == "setid-loser" {
+			out.skipped = true
+			return
 		}
 		if x.m == mNone {
 			out.skipped = true
@@ -1193,7 +1230,11 @@ func (w *world) exec(o op) (out stepOut) {
 			id = fmt.Sprintf("id%d", w.idn)
 			out.label = "setid-fresh"
 		}
-		suffix(x)
+		if onLoser {
+			out.label += "@loser"
+		} else {
+			suffix(x)
+		}
 		out.note = fmt.Sprintf("%s.SetID(%q)", x.name(), id)
 		if ok, wd := w.await(run(func() { x.sess.SetID(id) })); !ok {
 			out.inconcl = fmt.Sprintf("SetID did not return (watchdog=%v)", wd)
@@ -1205,6 +1246,37 @@ func (w *world) exec(o op) (out stepOut) {
 			}
 		}
 		x.mid = id
+	case "takeover-hook-rename":
+		// y takes the id of the live x over (which closes x); x's PostDisconnect hook renames the ended x
+		l := w.pickLink(o)
+		if l == nil {
+			out.skipped = true
+			return
+		}
+		y := l.b
+		if o.Side%2 == 1 {
+			y = l.a
+		}
+		c := w.liveOn(y.side, y)
+		if y.m != mOK || len(c) == 0 {
+			out.skipped = true
+			return
+		}
+		x := c[(o.V/8)%len(c)]
+		w.idn++
+		tomb := fmt.Sprintf("id%d", w.idn)
+		x.discRename.Store(tomb)
+		id := x.mid
+		out.note = fmt.Sprintf("%s.SetID(%q) takes %s over; PostDisconnect renames %s to %q", y.name(), id, x.name(), x.name(), tomb)
+		if ok, wd := w.await(run(func() { y.sess.SetID(id) })); !ok {
+			out.inconcl = fmt.Sprintf("SetID did not return (watchdog=%v)", wd)
+			return
+		}
+		if w.mTakeover(y.side, id, y) {
+			core.Add("model_takeovers", 1)
+		}
+		y.mid = id
+		x.mid, x.lost = tomb, false // renamed: it no longer shares an id with the winner
 	case "call", "push":
 		l := w.pickLink(o)
 		if l == nil {
@@ -1415,7 +1487,7 @@ var opWeights = []struct {
 	w int
 }{
 	{"accept", 16}, {"accept-reject", 4}, {"reject-far", 3}, {"accept-setid", 6}, {"accept-slowhook", 3},
-	{"hook-setid-reject", 5}, {"hook-setid-accept", 3},
+	{"hook-setid-reject", 5}, {"hook-setid-accept", 3}, {"setid-loser", 3}, {"takeover-hook-rename", 3},
 	{"setid-fresh", 9}, {"setid-collide", 11}, {"setid-same", 3}, {"call", 10}, {"push", 8},
 	{"close", 8}, {"remote-close", 6}, {"cut-eof", 4}, {"cut-reset", 4},
 }
@@ -2423,6 +2495,30 @@ func main() {
 						doHistory(fmt.Sprintf("d%03d", di-1), path, ops)
 					}
 				}
+			}
+		}
+	}
+	// directed histories "takeover-then-setid-on-loser": A has id X; B takes X over (SetID colliding, an id set in
+	// the accept hook, or - listener path - the shared default id of a second ServeConn'ed client connection),
+	// which closes A; then the ended A is renamed, directly or by its PostDisconnect hook: B must stay indexed
+	for _, path := range []string{"serveconn", "listener"} {
+		for side := 0; side < 2; side++ {
+			tails := []op{{K: "call", L: 1, Side: side}, {K: "peer-close", Side: 0}, {K: "peer-close", Side: 1}}
+			var hs [][]op
+			hs = append(hs, []op{{K: "accept", V: 1}, {K: "accept", V: 5}, {K: "setid-collide", L: 1, Side: side, V: 64}, {K: "setid-loser", Side: side}})
+			hs = append(hs, []op{{K: "accept", V: 1}, {K: "accept", V: 5}, {K: "takeover-hook-rename", L: 1, Side: side}})
+			if side == 0 {
+				hs = append(hs, []op{{K: "accept", V: 1}, {K: "accept-setid", V: 2}, {K: "setid-loser", Side: 0}})
+			} else if path == "listener" {
+				hs = append(hs, []op{{K: "accept", V: 0}, {K: "accept", V: 4}, {K: "setid-loser", Side: 1}})
+			}
+			for _, h := range hs {
+				ops := append(append([]op(nil), h...), tails...)
+				di++
+				if !mine() {
+					continue
+				}
+				doHistory(fmt.Sprintf("d%03d", di-1), path, ops)
 			}
 		}
 	}
